@@ -382,12 +382,31 @@ def call_days(e, ts, filt, fdt, start, end):
 
 
 def impl(case):
+    # every call is made twice with equal arguments; the objects the first call returned are overwritten in between (callers
+    # own what a helper returns: `m = generate_period_offset_map(p); m += 1` must not change what the next call returns)
+    _impl(case, scribble=True)
+    return _impl(case, scribble=False)
+
+
+def _scribble(np, *objs):
+    for o in objs:
+        if isinstance(o, np.ndarray) and o.size and o.flags.writeable:
+            o += 1 if o.dtype.kind != "b" else True
+        elif isinstance(o, list) and o:
+            o.reverse()
+            o.pop()
+
+
+def _impl(case, scribble):
     e = _env()
     np, dth = e["np"], e["dth"]
     op = case["op"]
     if op == "dates_periods":
         r = dth.get_periods(to_dt(e, case["start"]), to_dt(e, case["end"]), case["period"], case["delta"])
-        return {"v": [from_dt(e, x) for x in r]}
+        out = {"v": [from_dt(e, x) for x in r]}
+        if scribble:
+            _scribble(np, r)
+        return out
     if op == "dates_days":
         tsin = np_ts(np, case["ts"])
         before = tsin.copy()
@@ -396,16 +415,25 @@ def impl(case):
         days, inr = dth.get_days(tsin, f, None if case["start"] is None else np.float64(case["start"] - EPOCH),
                                  None if case["end"] is None else np.float64(case["end"] - EPOCH))
         untouched = bool((tsin == before).all()) and (f is None or bool((f == fbefore).all()))
-        return {"v": {"days": [int(x) for x in days.tolist()], "in_range": flags_out(np, inr)},
-                "ddtype": str(days.dtype), "irdtype": None if inr is None else str(inr.dtype), "untouched": untouched}
+        out = {"v": {"days": [int(x) for x in days.tolist()], "in_range": flags_out(np, inr)},
+               "ddtype": str(days.dtype), "irdtype": None if inr is None else str(inr.dtype), "untouched": untouched}
+        if scribble:
+            _scribble(np, days, inr)
+        return out
     if op == "dates_map":
         r = dth.generate_period_offset_map([to_dt(e, p) for p in case["periods"]])
-        return {"v": [int(x) for x in r.tolist()], "dtype": str(r.dtype)}
+        out = {"v": [int(x) for x in r.tolist()], "dtype": str(r.dtype)}
+        if scribble:
+            _scribble(np, r)
+        return out
     if op == "dates_offsets":
         m = np.array(case["map"], dtype=np.int32)
         days = np.array(case["days"], dtype=np.int32)
         r = dth.get_period_offsets(m, days, np_filter(np, case["in_range"], case["irdtype"]))
-        return {"v": [int(x) for x in r.tolist()], "dtype": str(r.dtype)}
+        out = {"v": [int(x) for x in r.tolist()], "dtype": str(r.dtype)}
+        if scribble:
+            _scribble(np, r)
+        return out
     if op == "dates_pipeline":
         ps = dth.get_periods(to_dt(e, case["start"]), to_dt(e, case["end"]), case["period"], case["delta"])
         if case["delta"] < 0:
@@ -414,7 +442,10 @@ def impl(case):
         days, inr = dth.get_days(np_ts(np, case["ts"]), np_filter(np, case["filter"], case["fdtype"]),
                                  np.float64(from_dt(e, ps[0]) - EPOCH), np.float64(from_dt(e, ps[-1]) - EPOCH))
         r = dth.get_period_offsets(pmap, days, inr)
-        return {"v": [int(x) for x in r.tolist()]}
+        out = {"v": [int(x) for x in r.tolist()]}
+        if scribble:
+            _scribble(np, r, pmap, days, inr, ps)
+        return out
     raise RuntimeError("unknown op " + op)
 
 
